@@ -1,7 +1,7 @@
 (* C03 — Directory codec: lossless and interoperable with the v3 wire format. *)
 From Coq Require Import NArith List.
 Import ListNotations.
-From PM Require Import Model.Varint Model.Directory Proofs.Varint Proofs.Directory.
+From PM Require Import Model.Varint Model.Directory Proofs.Varint Proofs.Directory Proofs.DirBound.
 Open Scope N_scope.
 
 (* varints: reading what was written returns the value and the untouched rest *)
@@ -26,6 +26,11 @@ Proof.
   intros n r Hn Hlt. unfold deserialize_res. rewrite read_put_uvarint by assumption.
   apply N.ltb_lt in Hlt. rewrite Hlt. reflexivity.
 Qed.
+
+(* ... and for EVERY input, valid or not: what the checked decoder returns has at most as many entries as the input has
+   bytes - a declared count cannot make it build a directory larger than what it was given *)
+Theorem C03_decoded_count_bounded : forall bs es, deserialize_res bs = Some es -> (length es <= length bs)%nat.
+Proof. exact decoded_count_bounded. Qed.
 
 (* Both internal compressions. gzip is a pair of functions with the round-trip contract (trusted base). *)
 Section Compression.
@@ -88,3 +93,4 @@ Print Assumptions C03_roundtrip.
 Print Assumptions C03_encoder_is_spec.
 Print Assumptions C03_decoder_reads_spec.
 Print Assumptions C03_serialize_injective.
+Print Assumptions C03_decoded_count_bounded.
